@@ -16,13 +16,14 @@ echo "== demo on clean tree: $cmd" >> "$log"
 ( sh -c "$cmd" ) > "$dst/demo_clean.out" 2>&1; clean_rc=$?
 grep -q -e '^FAIL' -e '--- FAIL' -e '^panic:' "$dst/demo_clean.out" && clean_rc=1
 cat "$dst/demo_clean.out" >> "$log"
-git checkout -q -- . 2>/dev/null
+git checkout -q -- . 2>/dev/null; git clean -fdq --exclude=out >/dev/null 2>&1
 if ! git apply "out/$mk/patch.diff" 2>>"$log"; then echo "RESULT patch-does-not-apply" >> "$log"; cd /; git -C /repo worktree remove --force "$wt"; exit 1; fi
 go build ./... >> "$log" 2>&1; build_rc=$?
 echo "== demo with mutant" >> "$log"
 ( sh -c "$cmd" ) > "$dst/demo_mutant.out" 2>&1; mut_rc=$?
 grep -q -e '^FAIL' -e '--- FAIL' -e '^panic:' "$dst/demo_mutant.out" && mut_rc=1
 cat "$dst/demo_mutant.out" >> "$log"
+git clean -fdq --exclude=out >/dev/null 2>&1   # demo commands may leave their copied test files behind
 echo "== test suite with mutant" >> "$log"
 pk=$(go list ./... | grep -v '/out/')
 go test -vet=off -count=1 $pk > "$dst/tests.log" 2>&1; test_rc=$?
